@@ -45,6 +45,11 @@ Definition same_depth (s s' : vstate) : Prop := length (vstack s') = length (vst
 Definition same_uv (s s' : vstate) : Prop := vuvs s' = vuvs s /\ vuvcache s' = vuvcache s.
 Definition depth_uv (s s' : vstate) : Prop := same_depth s s' /\ same_uv s s'.
 
+(* the frame that returns is not the body of a coroutine (there the return ends the coroutine and
+   the resumer becomes the running thread, see switchToParentThread) *)
+Definition not_coroutine_bottom (s : vstate) : Prop :=
+  th_parent (get_thread s (vcur s)) = None \/ length (vstack s) <> 1%nat.
+
 (* one OP_TAILCALL to a Lua function, with any operands *)
 Definition tc_step (s s' : vstate) : Prop :=
   exists cf callable lv meta nargs RA b, tailcall_lua cf callable lv meta nargs RA s = VRet b s'.
